@@ -105,6 +105,15 @@ func switchToParentThread(L *LState, nargs int, haserror bool, kill bool) {
 func callGFunction(L *LState, tailcall bool) bool {
 	frame := L.currentFrame
 	gfnret := frame.Fn.GFunction(L)
+	if tailcall && gfnret < 0 {
+		// `return coroutine.yield(...)`: suspend like an ordinary call and keep the calling frame.
+		// The values of the next resume become the results of this call (at frame.Base) and the
+		// RETURN instruction that follows every TAILCALL returns them.
+		frame.ReturnBase = frame.Base
+		frame.NRet = MultRet
+		switchToParentThread(L, L.GetTop(), false, false)
+		return true
+	}
 	if tailcall {
 		L.currentFrame = L.RemoveCallerFrame()
 	}
